@@ -101,11 +101,11 @@ macro_rules! return_if_some {
     };
 }
 
-pub const N_SINGLE: usize = 11;
+pub const N_SINGLE: usize = 13;
 /// single-trait families the plugin module can also make (C05)
 pub const N_PLUGIN_SINGLE: usize = 7;
 /// containers available per single-trait family
-pub const SINGLE_NCONT: [usize; N_SINGLE] = [2, 4, 2, 2, 1, 2, 1, 1, 1, 1, 4];
+pub const SINGLE_NCONT: [usize; N_SINGLE] = [2, 4, 2, 2, 1, 2, 1, 1, 1, 1, 4, 2, 2];
 
 fn wrapc(o: Option<Box<dyn DynObj>>, cx: &Cx, cont: usize) -> Option<Created> {
     o.map(|obj| Created { obj, ctxsel: cx.ctxsel, borrowed: cont == 1 || cont == 2 })
@@ -134,6 +134,8 @@ pub fn create_single(family: usize, cont: usize, cx: &Cx) -> Option<Created> {
             8 => tw!(KDisplay),
             9 => tw!(KAsRef),
             10 => tw!(KIntResMixed),
+            11 => tw!(KAttrs),
+            12 => tw!(KLife),
             _ => return None,
         };
         return Some(Created { obj, ctxsel: cx.ctxsel, borrowed });
@@ -163,6 +165,8 @@ pub fn create_single(family: usize, cont: usize, cx: &Cx) -> Option<Created> {
         8 => er!(Display, KDisplay, [0]),
         9 => er!(AsRef, KAsRef, [0]),
         10 => er!(IntResMixed, KIntResMixed, [0, 1, 2, 3]),
+        11 => er!(Attrs, KAttrs, [0, 1]),
+        12 => er!(Life, KLife, [0, 1]),
         _ => None,
     }
 }
